@@ -50,6 +50,16 @@ type inst struct {
 	seqOnly bool // writes to its own objects between calls: sequential histories only
 	// shared read-only inputs and how to fingerprint them (before/after)
 	sharedHash func() uint64
+	// props: the properties this instance is judged under (nil = C18, and C19 for writers)
+	props []string
+}
+
+// judged reports whether the instance's purity clauses apply under the active property.
+func (in *inst) judged(c *core.Ctx) bool {
+	if in.props == nil {
+		return c.Oracle("C18")
+	}
+	return c.Oracle(in.props...)
 }
 
 func writeAll(w io.Writer, b []byte, err error) error {
